@@ -309,6 +309,12 @@ pub struct SizeClass;
 impl SizeClass {
     /// `big_permille`: share (in 1/1000) of frames of 60..70 KiB (crossing the 64 KiB mark)
     pub fn draw(rng: &mut Rng, big_permille: u32) -> usize {
+        if big_permille > 0 && rng.chance(1, 3000) {
+            // sizes around powers of two from 128 KiB to 4 MiB (buffer capacities, bypass thresholds);
+            // the heavier weights sit at 1 MiB
+            let e = *rng.pick(&[17u32, 18, 19, 20, 20, 20, 21, 22]);
+            return (1usize << e) - 4 + rng.below(2000) as usize;
+        }
         match rng.weighted(&[500, 350, 150 - big_permille.min(150), big_permille.min(150)]) {
             0 => rng.range(1, 16) as usize,
             1 => rng.range(17, 300) as usize,
